@@ -259,7 +259,7 @@ func (e *Bounds) taintedParam(p *ssa.Parameter, env *taintEnv, up int) ssa.Value
 		return nil
 	}
 	st.pdone[p] = 2
-	edges := e.P.Callers(fn)
+	edges := e.P.RealCallers(fn)
 	if len(edges) > 4*maxCaller {
 		st.pdone[p] = 1
 		return nil
